@@ -485,7 +485,7 @@ const basePrelude = `
 (assert (forall ((s Slice) (i Int)) (! (= (selem s i) (loc (oid (sarr s)) (pidx (path (sarr s)) (+ (soff s) i)))) :pattern ((selem s i)))))
 (declare-fun errstr (Iface) Str)
 (declare-fun sentinel (Iface) Bool)
-(assert (forall ((s Str)) (! (and (>= (len s) 0) (<= (len s) 4611686018427387904)) :pattern ((len s)))))
+(assert (forall ((s Str)) (! (>= (len s) 0) :pattern ((len s)))))
 `
 
 // strlit axioms: length and bytes
